@@ -99,14 +99,14 @@ fn construct<T: BE>(case: &Value, out: &mut Out) -> Option<Banded<T>> {
     match guarded(|| band_from2::<T>(bj)) {
         Ok((m, plain, padding)) => { if ints("c") && ints("ci") { for w in 0..(if T::CX { 2 } else { 1 }) {
                        let want = if w == 0 { json!({"n": bj["n"], "m1": bj["m1"], "m2": bj["m2"], "c": bj["c"]}) } else { im_band(bj) };
-                       out.ev(json!({"op": "built", "ty": T::NAME, "cid": cid, "k": -1, "panic": false, "padding": padding, "post": jband(&plain, if w == 0 { Part::Re } else { Part::Im }), "want": want})); } }
+                       out.ev(json!({"op": "built", "ty": T::NAME, "cid": cid, "k": -1, "panic": false, "padding": padding, "part": if w == 0 { "re" } else { "im" }, "post": jband(&plain, if w == 0 { Part::Re } else { Part::Im }), "want": want})); } }
                    Some(m) }
         Err(msg) => { out.ev(json!({"op": "built", "ty": T::NAME, "cid": cid, "k": -1, "panic": true, "msg": msg})); None }
     }
 }
 
 // ------------------------------------------------------------------ histories
-enum Res<T> { None, B(Banded<T>), V(Vector<T>), S(T), Dims(usize, usize, usize), D(Vec<(i64, i64)>) }
+enum Res<T> { None, B(Banded<T>), V(Vector<T>), S(T), Dims(usize, usize, usize), D(Vec<(i64, i64)>), Det(T), X(Vector<T>) }
 
 fn argx<T: BE>(op: &Value, k: &str) -> T { let ki = format!("{}i", k); scal::<T>(&op[k], if T::CX { op.get(&ki) } else { None }) }
 
@@ -136,6 +136,9 @@ fn step<T: BE>(m: &mut Banded<T>, op: &Value) -> Result<Res<T>, String> {
             "add_scalar_assign" => { *m += argx::<T>(op, "s"); Res::None }
             "sub_scalar_assign" => { *m -= argx::<T>(op, "s"); Res::None }
             "matvec" => { let v = vec_of::<T>(&op["v"], if T::CX { op.get("vi") } else { None }); Res::V(if own { m.clone() * v } else { &*m * &v }) }
+            "resize" => { m.resize(getu(op, "n"), getu(op, "m1"), getu(op, "m2")); Res::None }
+            "det" => Res::Det(m.det()),
+            "solve" => { let b = vec_of::<T>(&op["b"], if T::CX { op.get("bi") } else { None }); Res::X(m.solve(&b)) }
             other => tool_error(&format!("unknown banded op {}", other)),
         }
     })
@@ -155,7 +158,29 @@ fn run_hist_from<T: BE>(case: &Value, out: &mut Out, k0: usize) {
         let post = [jband(&m, Part::Re), jband(&m, Part::Im)];
         let panic = r.is_err();
         let res = r.unwrap_or(Res::None);
-        let base = |w: usize| -> Value { json!({"op": name, "ty": T::NAME, "cid": cid, "k": k, "panic": panic, "pre": pre[w], "post": post[w], "part": if w == 0 { "re" } else { "im" }}) };
+        let seq = gets(case, "kind") == "seq";
+        let base = |w: usize| -> Value { let mut e = json!({"op": name, "ty": T::NAME, "cid": cid, "k": k, "panic": panic, "pre": pre[w], "post": post[w], "part": if w == 0 { "re" } else { "im" }});
+            if seq { e["seq"] = json!(true); } e };
+        // determinant / solve on the CURRENT state of the object (sequences): exact for Rat, units for floats
+        if name == "det" || name == "solve" {
+            let mut e = base(0); if let Some(m) = e.as_object_mut() { m.remove("post"); m.remove("part"); }
+            let n = getu(&pre[0], "n");
+            if T::NAME == "rat" {
+                if name == "det" { e["rq"] = match &res { Res::Det(d) => rat_of(d), _ => json!([BAD, 1]) }; }
+                else { let (xs, l) = match &res { Res::X(x) => jxs(common_den(&x.vec.iter().map(rat_val).collect::<Vec<Rat>>(), LIM), n), _ => jxs(None, n) }; e["b"] = op["b"].clone(); e["xs"] = xs; e["L"] = l; }
+                out.ev(e);
+            } else {
+                // reference from the logged projection of the current state (the trace spec ties it to the model state)
+                let mut bj = pre[0].clone(); bj["ci"] = pre[1]["c"].clone();
+                let dc = dense_case(&bj);
+                let bc: Vec<(f64, f64)> = if name == "solve" { vec_of::<T>(&op["b"], if T::CX { op.get("bi") } else { None }).vec.iter().map(|x| x.to_c()).collect() } else { vec![(0.0, 0.0); n] };
+                let (du, su, singular) = float_units::<T>(&dc, &bc, if let Res::Det(d) = &res { Some(*d) } else { None }, if let Res::X(x) = &res { Some(x) } else { None });
+                if T::CX { e["prei"] = pre[1].clone(); } e["n"] = json!(n); e["cxf"] = json!(T::CX);
+                if name == "det" { e["op"] = json!("det_units"); e["units"] = json!(du); out.ev(e); }
+                else if !singular { e["op"] = json!("solve_units"); e["units"] = json!(su); out.ev(e); }
+            }
+            continue;
+        }
         // bilinear operations on complex data: one event with both parts
         if T::CX && name == "matvec" {
             let mut e = base(0); e["op"] = json!("matvec_cx"); e["prei"] = pre[1].clone();
@@ -173,6 +198,7 @@ fn run_hist_from<T: BE>(case: &Value, out: &mut Out, k0: usize) {
             let pw = if w == 0 { Part::Re } else { Part::Im };
             let mut e = base(w);
             for key in ["i", "j", "kb", "n", "m1", "m2", "form"] { if let Some(v) = op.get(key) { e[key] = v.clone(); } }
+            if name == "resize" { e["n2"] = op["n"].clone(); }
             // value arguments: the imaginary twin sees the imaginary parts; a real scalar FACTOR acts on both parts alike
             let factor = matches!(name, "mul_scalar" | "div_scalar" | "mul_assign" | "div_assign");
             if let Some(v) = op.get("x") { e["x"] = if w == 0 { v.clone() } else { op.get("xi").cloned().unwrap_or(json!(0)) }; }
@@ -185,7 +211,7 @@ fn run_hist_from<T: BE>(case: &Value, out: &mut Out, k0: usize) {
                 Res::S(x) => e["ri"] = json!(part(x.to_ri(), pw)),
                 Res::Dims(a, b, c) => { e["rn"] = json!(a); e["rm1"] = json!(b); e["rm2"] = json!(c); }
                 Res::D(d) => { let n = m.size(); e["rm"] = json!({"r": n, "c": n, "d": d.iter().map(|p| part(*p, pw)).collect::<Vec<i64>>()}); }
-                Res::None => {}
+                Res::None | Res::Det(_) | Res::X(_) => {}
             }
             if panic {   // fields the trace spec may look at must exist
                 match name { "get" => e["ri"] = json!(BAD), "matvec" => e["rv"] = json!([]), "dense" => e["rm"] = json!({"r": 0, "c": 0, "d": []}),
@@ -265,6 +291,21 @@ pub fn backward_units(a: &[Vec<(f64, f64)>], x: &[(f64, f64)], b: &[(f64, f64)])
     units(rmax, f64::EPSILON * (an * xn + bn))
 }
 
+/// (determinant units, solve units, reference says singular) for a float result against double-double references;
+/// a missing result (panic) counts as saturated
+fn float_units<T: BE>(dc: &[Vec<(f64, f64)>], bc: &[(f64, f64)], det: Option<T>, sol: Option<&Vector<T>>) -> (i64, i64, bool) {
+    let n = dc.len();
+    let a: Vec<Vec<CDD>> = dc.iter().map(|r| r.iter().map(|p| CDD::from(p.0, p.1)).collect()).collect();
+    let (rdet, minp, _) = ref_gepp(&a, &bc.iter().map(|p| CDD::from(p.0, p.1)).collect::<Vec<CDD>>());
+    let amax = dc.iter().flatten().map(|p| cabs(*p)).fold(0.0, f64::max);
+    // determinant: unit = eps * sqrt(n) * prod_i max(|row_i|_2, max|a|)  (multilinearity of det in the rows)
+    let mut unit = f64::EPSILON * (n as f64).sqrt();
+    for r in dc { let r2 = r.iter().map(|p| p.0 * p.0 + p.1 * p.1).sum::<f64>().sqrt(); unit *= r2.max(amax); }
+    let du = match det { Some(d) => { let (re, im) = d.to_c(); if re.is_finite() && im.is_finite() { units(CDD::from(re, im).sub(rdet).abs(), unit) } else { SAT } } None => SAT };
+    let su = match sol { Some(x) => backward_units(dc, &x.vec.iter().map(|v| v.to_c()).collect::<Vec<_>>(), bc), None => SAT };
+    (du, su, !(minp > 1e-9 * amax))
+}
+
 // ------------------------------------------------------------------ det / solve / product on one matrix
 /// dense twin of the case's matrix (from the case JSON, never through the object under test)
 fn dense_case(bj: &Value) -> Vec<Vec<(f64, f64)>> {
@@ -294,19 +335,10 @@ fn run_lu<T: BE>(case: &Value, out: &mut Out) {
         let (xs, l) = match &sol { Ok(x) => jxs(common_den(&x.vec.iter().map(rat_val).collect::<Vec<Rat>>(), LIM), n), Err(_) => jxs(None, n) };
         emit(out, &mut k, json!({"op": "solve", "pre": pre, "b": case["b"], "panic": sol.is_err(), "xs": xs, "L": l, "msg": sol.as_ref().err().cloned().unwrap_or_default()}));
     } else {
-        let a: Vec<Vec<CDD>> = dc.iter().map(|r| r.iter().map(|p| CDD::from(p.0, p.1)).collect()).collect();
-        let (rdet, minp, _) = ref_gepp(&a, &bc.iter().map(|p| CDD::from(p.0, p.1)).collect::<Vec<CDD>>());
-        let amax = dc.iter().flatten().map(|p| cabs(*p)).fold(0.0, f64::max);
-        // determinant: unit = eps * sqrt(n) * prod_i max(|row_i|_2, max|a|)  (multilinearity of det in the rows)
-        let mut unit = f64::EPSILON * (n as f64).sqrt();
-        for r in &dc { let r2 = r.iter().map(|p| p.0 * p.0 + p.1 * p.1).sum::<f64>().sqrt(); unit *= r2.max(amax); }
-        let du = match &det { Ok(d) => { let (re, im) = d.to_c(); if re.is_finite() && im.is_finite() { let e = CDD::from(re, im).sub(rdet).abs(); units(e, unit) } else { SAT } } Err(_) => SAT };
-        emit(out, &mut k, json!({"op": "det_units", "n": n, "cxf": T::CX, "panic": det.is_err(), "units": du, "singular": minp <= 1e-9 * amax}));
+        let (du, su, singular) = float_units::<T>(&dc, &bc, det.as_ref().ok().copied(), sol.as_ref().ok());
+        emit(out, &mut k, json!({"op": "det_units", "n": n, "cxf": T::CX, "panic": det.is_err(), "units": if det.is_ok() { du } else { SAT }, "singular": singular}));
         // solve: only where the reference elimination meets no (nearly) zero pivot
-        if minp > 1e-9 * amax {
-            let su = match &sol { Ok(x) => backward_units(&dc, &x.vec.iter().map(|v| v.to_c()).collect::<Vec<_>>(), &bc), Err(_) => SAT };
-            emit(out, &mut k, json!({"op": "solve_units", "n": n, "cxf": T::CX, "panic": sol.is_err(), "units": su}));
-        }
+        if !singular { emit(out, &mut k, json!({"op": "solve_units", "n": n, "cxf": T::CX, "panic": sol.is_err(), "units": if sol.is_ok() { su } else { SAT }})); }
     }
     // product and index on the same matrix (integer data only)
     let ints = |b: &Value| b["c"]["d"].as_array().unwrap().iter().all(|x| x.is_i64()) && b.get("ci").map(|c| c["d"].as_array().unwrap().iter().all(|x| x.is_i64())).unwrap_or(true);
@@ -321,7 +353,7 @@ fn rat_val<T: BE>(x: &T) -> Rat { let any: &dyn std::any::Any = x; *any.downcast
 fn rat_of<T: BE>(x: &T) -> Value { jrat(rat_val(x)) }
 
 pub fn exec(case: &Value, out: &mut Out) {
-    let hist = gets(case, "kind") == "hist";
+    let hist = matches!(gets(case, "kind"), "hist" | "seq");
     match (gets(case, "ty"), hist) {
         ("rat", true) => run_hist::<Rat>(case, out), ("f64", true) => run_hist::<f64>(case, out), ("cx", true) => run_hist::<Cmplx>(case, out),
         ("rat", false) => run_lu::<Rat>(case, out), ("f64", false) => run_lu::<f64>(case, out), ("cx", false) => run_lu::<Cmplx>(case, out),
@@ -479,7 +511,152 @@ pub fn gen(tier: &str, seed: u64, out: &mut Out) {
                 push(out, case);
             }
         } }
+        // (c) graded pivot candidates inside the search window (floats; needs at least two rows below the diagonal)
+        if m1 >= 2 && n >= 3 {
+            let ks: Vec<usize> = if quick { vec![t % (n - 2), (t / 3 + 1) % (n - 2)] } else { (0..n - 2).collect() };
+            for (q, k) in ks.iter().enumerate() { for cx in [false, true] {
+                let variants: Vec<usize> = if quick { vec![if q == 0 { 0 } else { 1 + (t + cx as usize) % 2 }] } else { vec![0, 1, 2] };
+                for variant in variants {
+                    let mut case = graded_case(&mut rng, n, m1, m2, *k, cx, variant);
+                    for _ in 0..20 { if solvable(&case) { break; } case = graded_case(&mut rng, n, m1, m2, *k, cx, variant); }
+                    if solvable(&case) { push(out, case); }
+                }
+            } }
+        }
     } } }
+    // (d) sequences on one object: det / solve / product / reads before and after EVERY mutating operation
+    for n in 1..=10usize {
+        let mut geos: Vec<(usize, usize)> = vec![(0, 0)];
+        if n >= 2 { geos = vec![(1, 1), (1, 0), (0, 1)]; }
+        if n >= 3 { geos = vec![(1, 1), (2, 1), (1, 2), (rng.gen_range(0..n), rng.gen_range(0..n))]; }
+        if quick { let keep = if n >= 3 { 2 } else { 1 }; let off = rng.gen_range(0..geos.len()); geos = (0..keep).map(|i| geos[(off + i) % geos.len()]).collect(); }
+        for (m1, m2) in geos { for ty in TYS { for _rep in 0..(if quick { 1 } else { 3 }) {
+            let mut mag = 3i64; let mut best = seq_case(&mut rng, n, m1, m2, ty, mag);
+            for tries in 0..12 { if best.1 >= 0.8 { break; } if tries % 2 == 1 && mag > 1 { mag -= 1; } let c = seq_case(&mut rng, n, m1, m2, ty, mag); if c.1 > best.1 { best = c; } }
+            push(out, best.0);
+        } } }
+    }
 }
 // keep DD in the public surface of this module for the tridiagonal suite
 pub fn dd_from(x: f64) -> DD { DD::from(x) }
+
+// ------------------------------------------------------------------ sequences on ONE object (stale internal state)
+/// integer simulation of the compact storage, used ONLY to keep the generated magnitudes inside what TLC can
+/// decide exactly (never for a verdict)
+struct Sim { n: usize, m1: usize, m2: usize, c: Vec<Vec<i128>> }
+impl Sim {
+    fn from_band(b: &Value) -> Sim { let (n, m1, m2) = (getu(b, "n"), getu(b, "m1"), getu(b, "m2")); let mm = m1 + m2 + 1; let d = ivec(&b["c"]["d"]);
+        Sim { n, m1, m2, c: (0..n).map(|i| (0..mm).map(|c| d[i * mm + c] as i128).collect()).collect() } }
+    fn mm(&self) -> usize { self.m1 + self.m2 + 1 }
+    fn dense(&self) -> Vec<Vec<i128>> { (0..self.n).map(|i| (0..self.n).map(|j| if in_band(self.n, self.m1, self.m2, i, j) { self.c[i][self.m1 + j - i] } else { 0 }).collect()).collect() }
+    fn apply(&mut self, op: &Value) {
+        let mm = self.mm(); let x = op.get("x").and_then(|v| v.as_i64()).unwrap_or(0) as i128; let s = op.get("s").and_then(|v| v.as_i64()).unwrap_or(1) as i128;
+        let all = |c: &mut Vec<Vec<i128>>, f: &dyn Fn(i128, usize, usize) -> i128| { for i in 0..c.len() { for k in 0..c[i].len() { c[i][k] = f(c[i][k], i, k); } } };
+        let bd: Vec<i128> = op.get("b").map(|b| ivec(&b["c"]["d"]).iter().map(|v| *v as i128).collect()).unwrap_or_default();
+        match gets(op, "op") {
+            "set" => { let (i, j) = (getu(op, "i"), getu(op, "j")); self.c[i][self.m1 + j - i] = x; }
+            "fill" => all(&mut self.c, &|_, _, _| x),
+            "fill_band" => { let col = (self.m1 as i64 + geti(op, "kb")) as usize; for i in 0..self.n { self.c[i][col] = x; } }
+            "add_assign" => all(&mut self.c, &|v, i, k| v + bd[i * mm + k]),
+            "sub_assign" => all(&mut self.c, &|v, i, k| v - bd[i * mm + k]),
+            "mul_assign" => all(&mut self.c, &|v, _, _| v * s),
+            "div_assign" => all(&mut self.c, &|v, _, _| v / s),
+            "add_scalar_assign" => all(&mut self.c, &|v, _, _| v + s),
+            "sub_scalar_assign" => all(&mut self.c, &|v, _, _| v - s),
+            "resize" => { let (n, m1, m2) = (getu(op, "n"), getu(op, "m1"), getu(op, "m2")); let mm2 = m1 + m2 + 1;
+                let old = std::mem::take(&mut self.c); self.c = (0..n).map(|i| (0..mm2).map(|k| if i < old.len() && k < mm { old[i][k] } else { 0 }).collect()).collect();
+                self.n = n; self.m1 = m1; self.m2 = m2; }
+            _ => {}
+        }
+    }
+}
+/// probes after every mutation: det, solve, product, all in-band reads (det / solve only where TLC can decide them)
+fn probes(rng: &mut StdRng, sim: &Sim, exact: bool, cx: bool, ops: &mut Vec<Value>) -> bool {
+    let n = sim.n; let b: Vec<i64> = (0..n).map(|_| rng.gen_range(-5..=5)).collect();
+    let fit = !exact || fits_tlc(&sim.dense(), &b);
+    if fit { ops.push(json!({"op": "det"})); let mut o = json!({"op": "solve", "b": b}); if cx { o["bi"] = rand_vec_json(rng, n, -5, 5); } ops.push(o); }
+    let mut mv = json!({"op": "matvec", "form": if rng.gen_bool(0.5) { "own" } else { "ref" }, "v": rand_vec_json(rng, n, -3, 3)}); if cx { mv["vi"] = rand_vec_json(rng, n, -3, 3); }
+    ops.push(mv); ops.push(json!({"op": "dense"}));
+    fit
+}
+/// one sequence: probes, then EVERY mutating operation of the type, each followed by the probes again
+fn seq_case(rng: &mut StdRng, n: usize, m1: usize, m2: usize, ty: &str, mag: i64) -> (Value, f64) {
+    let cx = ty == "cx"; let exact = ty == "rat";
+    let mut band = rand_band_int(rng, n, m1, m2, -mag, mag); if cx { band = with_im(rng, band, -mag, mag); }
+    let mut sim = Sim::from_band(&band);
+    let mut ops = vec![]; let (mut fitn, mut tot) = (0usize, 0usize);
+    let mut probe = |rng: &mut StdRng, sim: &Sim, ops: &mut Vec<Value>| { tot += 1; if probes(rng, sim, exact, cx, ops) { fitn += 1; } };
+    probe(rng, &sim, &mut ops);
+    let mut order: Vec<usize> = (0..14).collect(); for i in (1..order.len()).rev() { order.swap(i, rng.gen_range(0..=i)); }
+    let small = |rng: &mut StdRng| -> i64 { let v = rng.gen_range(1..=mag.max(1)); if rng.gen_bool(0.5) { v } else { -v } };
+    for pick in order {
+        let (cn, cm1, cm2) = (sim.n, sim.m1, sim.m2);
+        let inb = |rng: &mut StdRng| -> (usize, usize) { loop { let i = rng.gen_range(0..cn); let j = rng.gen_range(0..cn); if in_band(cn, cm1, cm2, i, j) { return (i, j); } } };
+        let mut batch: Vec<Value> = match pick {
+            0 | 1 => { let (i, j) = inb(rng); vec![json!({"op": "set", "i": i, "j": j, "x": small(rng), "xi": small(rng)})] }
+            2 => vec![json!({"op": "fill_band", "kb": rng.gen_range(-(cm1 as i64)..=(cm2 as i64)), "x": small(rng), "xi": small(rng)})],
+            3 => vec![json!({"op": "add_assign", "form": "ref", "b": rand_band_int(rng, cn, cm1, cm2, -2, 2)})],
+            4 => vec![json!({"op": "add_assign", "form": "own", "b": rand_band_int(rng, cn, cm1, cm2, -2, 2)})],
+            5 => vec![json!({"op": "sub_assign", "form": "ref", "b": rand_band_int(rng, cn, cm1, cm2, -2, 2)})],
+            6 => vec![json!({"op": "sub_assign", "form": "own", "b": rand_band_int(rng, cn, cm1, cm2, -2, 2)})],
+            7 => vec![json!({"op": "mul_assign", "s": ([2i64, -2, 3][rng.gen_range(0..3)])})],
+            8 => { let s = [2i64, -2, 3][rng.gen_range(0..3)]; vec![json!({"op": "mul_assign", "s": s}), json!({"op": "div_assign", "s": s})] }   // exact division
+            9 => vec![json!({"op": "add_scalar_assign", "s": small(rng), "si": small(rng)})],
+            10 => vec![json!({"op": "sub_scalar_assign", "s": small(rng), "si": small(rng)})],
+            11 => { let n2 = rng.gen_range(1..=(cn + 1).min(10)); let a = rng.gen_range(0..n2); let b = rng.gen_range(0..n2);
+                    let mut v = vec![json!({"op": "resize", "n": n2, "m1": a, "m2": b})]; for i in 0..n2 { v.push(json!({"op": "set", "i": i, "j": i, "x": small(rng), "xi": small(rng), "quiet": true})); } v }
+            12 => { let mut v = vec![json!({"op": "fill", "x": small(rng), "xi": small(rng)})]; for i in 0..cn { v.push(json!({"op": "set", "i": i, "j": i, "x": small(rng) * 3, "xi": small(rng), "quiet": true})); } v }
+            _ => vec![json!({"op": "sub_scalar_assign", "s": small(rng), "si": small(rng)})],
+        };
+        for o in batch.iter_mut() {
+            if cx { if let Some(b) = o.get("b").cloned() { o["b"] = with_im(rng, b, -2, 2); } } else if let Some(m) = o.as_object_mut() { m.remove("xi"); m.remove("si"); }
+            let quiet = o.get("quiet").is_some(); if let Some(m) = o.as_object_mut() { m.remove("quiet"); }
+            sim.apply(o); ops.push(o.clone());
+            if !quiet { probe(rng, &sim, &mut ops); }      // probes after every mutation
+        }
+        if matches!(pick, 11 | 12) { probe(rng, &sim, &mut ops); }   // ... and again once the diagonal has been rewritten
+    }
+    (json!({"kind": "seq", "ty": ty, "band": band, "ops": ops}), fitn as f64 / tot.max(1) as f64)
+}
+
+// ------------------------------------------------------------------ graded pivot candidates (floats, m1 >= 2)
+/// A matrix whose pivot column `k` holds, in the rows k..min(k+m1, n-1) of the search window, candidates of
+/// magnitudes 1, 2^-60, 2^-120, ... in a prescribed order; the columns before k carry nothing below the diagonal,
+/// so the window reaches step k untouched.  Partial pivoting BY MAGNITUDE picks the O(1) candidate and the
+/// backward error stays at rounding level; any rule that picks another nonzero candidate (last / first one that
+/// beats the diagonal, second largest, ...) meets multipliers of 2^60 and loses the solution.
+/// variant 0: diagonal zero / smallest, largest right below it, middle candidate last (the stale-maximum case);
+/// variant 1: diagonal smallest, middle first, largest last; variant 2: random order.
+fn graded_case(rng: &mut StdRng, n: usize, m1: usize, m2: usize, k: usize, cx: bool, variant: usize) -> Value {
+    let mm = m1 + m2 + 1; let hi = (k + m1).min(n - 1); let w = hi - k + 1;      // window rows k..=hi
+    let mut level: Vec<i32> = (0..w).map(|t| -60 * t as i32).collect();          // exponents 0, -60, -120, ...
+    match variant {      // level[] is sorted by decreasing magnitude; w >= 3
+        0 => { let mut v = vec![level[w - 1], level[0]]; v.extend(level[1..w - 1].iter()); level = v; }        // smallest, largest, ..., second smallest
+        1 => { let mut v = vec![level[w - 1]]; v.extend(level[1..w - 1].iter()); v.push(level[0]); level = v; }  // smallest, second largest, ..., largest
+        _ => { for i in (1..w).rev() { level.swap(i, rng.gen_range(0..=i)); } }
+    }
+    let zero_diag = variant == 0 && rng.gen_bool(0.5);
+    let ent = |rng: &mut StdRng, e: i32| -> Value { let m = rng.gen_range(1i64..=9) * if rng.gen_bool(0.5) { 1 } else { -1 }; json!({"m": m, "e": e}) };
+    let mut d = vec![]; let mut di = vec![];
+    for i in 0..n { for c in 0..mm {
+        let j = i as isize + c as isize - m1 as isize;
+        let (re, im) = if j < 0 || j as usize >= n { (json!(rand_pad(rng)), json!(rand_pad(rng))) } else { let j = j as usize;
+            if j < k && i > j { (json!(0), json!(0)) }                                     // nothing below the diagonal before column k
+            else if j == k && i >= k && i <= hi { if i == k && zero_diag { (json!(0), json!(0)) } else { let e = level[i - k]; (ent(rng, e), if rng.gen_bool(0.7) { ent(rng, e) } else { json!(0) }) } }
+            else if i == j { (json!(rng.gen_range(5i64..=9) * if rng.gen_bool(0.5) { 1 } else { -1 }), json!(rng.gen_range(-4i64..=4))) }
+            else { (ent(rng, -2), ent(rng, -2)) } };
+        d.push(re); di.push(im);
+    } }
+    let mut band = json!({"n": n, "m1": m1, "m2": m2, "c": {"r": n, "c": mm, "d": d}});
+    let mut case = json!({"kind": "lu", "fam": "graded", "step": k, "variant": variant, "ty": if cx { "cx" } else { "f64" }, "b": rand_vec_json(rng, n, -9, 9)});
+    if cx { band["ci"] = json!({"r": n, "c": mm, "d": di}); case["bi"] = rand_vec_json(rng, n, -9, 9); }
+    case["band"] = band; case
+}
+/// is the reference elimination of this float case free of (nearly) zero pivots?  (so that exec will judge solve)
+fn solvable(case: &Value) -> bool {
+    let dc = dense_case(&case["band"]); let n = dc.len();
+    let a: Vec<Vec<CDD>> = dc.iter().map(|r| r.iter().map(|p| CDD::from(p.0, p.1)).collect()).collect();
+    let (_, minp, _) = ref_gepp(&a, &vec![CDD::ZERO; n]);
+    let amax = dc.iter().flatten().map(|p| cabs(*p)).fold(0.0, f64::max);
+    minp > 1e-6 * amax
+}
